@@ -85,6 +85,8 @@ structure AppJobs where
   planned : List (Nat × List Command)
   current : List Command := []
   stopRequest : Bool := false
+  /-- `ApplicationJobs.processing_group`: the commands of a sequence group are being processed (`ApplicationJobs.next`) -/
+  processing : Bool := false
   /-- `ApplicationStartJobs.starting_strategy`: the strategy the application start was requested with -/
   strategy : Strategy := .config
   /-- `ApplicationStartJobs.identifiers`: the instances selected for a non-distributed application -/
@@ -230,7 +232,7 @@ def popKey {α} (k : Nat) : List (Nat × α) → Option α × List (Nat × α)
   | [] => (none, [])
   | (k', v) :: t => if k' = k then (some v, t) else let (r, t') := popKey k t; (r, (k', v) :: t')
 
-def jobInProgress (j : AppJobs) : Bool := !j.planned.isEmpty || !j.current.isEmpty
+def jobInProgress (j : AppJobs) : Bool := j.processing || !j.planned.isEmpty || !j.current.isEmpty
 
 /-- ApplicationStartJobs.process_failure -/
 def processFailure (w : W) (j : AppJobs) (p : Nat) : AppJobs :=
@@ -496,18 +498,21 @@ def jobNext (fuel : Nat) (app : Nat) : M Unit := do
     match w.current.find? (·.app = app) with
     | none => pure ()
     | some j =>
-      if j.current.isEmpty ∧ !j.planned.isEmpty then
+      if !j.processing ∧ j.current.isEmpty ∧ !j.planned.isEmpty then
         match minKey j.planned with
         | none => pure ()
         | some k =>
           let (grp, rest) := popKey k j.planned
-          modify fun w => { w with current := w.current.map (fun x => if x.app = app ∧ x.runId = j.runId then { x with planned := rest } else x) }
+          -- `processing_group`: until the whole group has been processed the job is neither complete nor ready for its next
+          -- group, whatever the forced events of the commands that cannot be performed re-enter
+          modify fun w => { w with current := w.current.map (fun x => if x.app = app ∧ x.runId = j.runId then { x with planned := rest, processing := true } else x) }
           let mut mine : List Command := []      -- `self.current_jobs` of this job object
           for c in grp.getD [] do
             let (queued, c') ← processJob fuel app j.runId mine c
             if queued then
               mine := mine ++ [c']
               modify fun w => { w with current := w.current.map (fun x => if x.app = app ∧ x.runId = j.runId then { x with current := x.current ++ [c'] } else x) }
+          modify fun w => { w with current := w.current.map (fun x => if x.app = app ∧ x.runId = j.runId then { x with processing := false } else x) }
           jobNext fuel app
 
 /-- Commander.next -/
